@@ -2,12 +2,14 @@
   AY.Lemmas.C07PipeOps — the pre-merge operators `!append` / `!extend` (helpers for AY.Props.C07_Pipeline).
 
   What such a node returns is a list-family node — the destination detached from the accumulated tree
-  (its own flags, its old children first) or, without destination, a new plain list `ConfigList(self)`
-  (fresh flags) — whose last `len(self)` children are the operator's elements, each adopted by the node
+  (its own flags, its old children first) or, without destination, a new plain list
+  `ConfigList(self)._replace_other(self)` (fresh flags merged with the operator's explicit `safe`, source-level
+  flag and metadata) — whose last `len(self)` children are the operator's elements, each adopted by the node
   that now holds them.  Adoption never makes a node safe again (an inherited `safe=False` is sticky), so
   elements that were unsafe throughout stay unsafe throughout.
 
-  `updFlagsMut` / `newPlainListMut` is the seeded regression (the sticky guard removed from the metaclass
+  `freshPlainList` (AY.Model.Build) is the list BEFORE the repair "the plain list stands for this node"
+  (`ConfigList(self)` with bare fresh flags); `updFlagsMut` / `newPlainListMut` is the seeded regression (the sticky guard removed from the metaclass
   call, `ConfigList(self)` then resets an inherited `safe=False`): the statement is false for it.
 -/
 import AY.Lemmas.C07PipeRoot
@@ -18,9 +20,33 @@ theorem renumFrom_map_snd {α : Type} : ∀ (i : Nat) (xs : List α), (renumFrom
   | _, [] => rfl
   | i, x :: xs => by simp [renumFrom, renumFrom_map_snd (i + 1) xs]
 
-theorem newPlainList_children (vals : List Node) :
-    (newPlainList vals).children.map (·.2) = vals.map (inheritInto none (childKw freshFlags .list)) := by
-  simp [newPlainList, Node.children, renum, renumFrom_map_snd]
+theorem applyKwList_renumFrom (kw : ChildKw) : ∀ (i : Nat) (xs : List Node),
+    applyKwList kw (renumFrom i xs) = renumFrom i (xs.map (applyKw kw))
+  | _, [] => rfl
+  | i, x :: xs => by simp [renumFrom, applyKwList, applyKwList_renumFrom kw (i + 1) xs]
+
+/-- the flags of the list that stands for an `!append` / `!extend` node without destination -/
+theorem newPlainList_flags (f : Flags) (vals : List Node) :
+    (newPlainList f vals).flags = replaceOtherFlags freshFlags f := by
+  simp only [newPlainList, propagate_flags]; rfl
+
+/-- what the fresh list hands down to its elements after `_replace_other` -/
+def freshKw (f : Flags) : ChildKw :=
+  match childKw (replaceOtherFlags freshFlags f) .list with
+  | some kw => kw
+  | none => { iDel := none, iNew := none, iSafe := none }
+
+theorem newPlainList_eq (f : Flags) (vals : List Node) :
+    newPlainList f vals = .comp (replaceOtherFlags freshFlags f) .list
+      (renum (vals.map (fun v => applyKw (freshKw f) (inheritInto none (childKw freshFlags .list) v)))) := by
+  simp only [newPlainList, propagate, freshKw, childKw, renum, applyKwList_renumFrom, List.map_map]
+  rfl
+
+theorem newPlainList_children (f : Flags) (vals : List Node) :
+    (newPlainList f vals).children.map (·.2) =
+      vals.map (fun v => applyKw (freshKw f) (inheritInto none (childKw freshFlags .list) v)) := by
+  rw [newPlainList_eq]
+  simp [Node.children, renum, renumFrom_map_snd]
 
 /-- `node.extend(values)`: the old children, then the new ones, each adopted -/
 theorem extendList_shape (f : Flags) (k : CompKind) : ∀ (vals : List Node) (cs : List (Key × Node)),
@@ -56,10 +82,11 @@ theorem contributed_adopt (f : Flags) (k : CompKind) {cs added : List (Key × No
     (h : added.map (·.2) = (cs.map (·.2)).map (adopt f k)) : Contributed cs added :=
   ⟨adopt f k, by rw [h, List.map_map]; rfl, fun v hv => adopt_all stable_isUnsafe_any f k hv⟩
 
-theorem contributed_fresh {cs : List (Key × Node)} :
-    Contributed cs (newPlainList (cs.map (·.2))).children :=
-  ⟨inheritInto none (childKw freshFlags .list), by rw [newPlainList_children, List.map_map]; rfl,
-   fun v hv => inheritInto_all stable_isUnsafe_any none _ hv⟩
+theorem contributed_fresh (f : Flags) {cs : List (Key × Node)} :
+    Contributed cs (newPlainList f (cs.map (·.2))).children :=
+  ⟨fun v => applyKw (freshKw f) (inheritInto none (childKw freshFlags .list) v),
+   by rw [newPlainList_children, List.map_map]; rfl,
+   fun v hv => applyKw_all stable_isUnsafe_any _ _ (inheritInto_all stable_isUnsafe_any none _ hv)⟩
 
 /-- `AppendNode/ExtendNode.on_premerge_impl`: the node returned is `old ++ added` under the flags of the
     destination, or of a fresh list when there is no destination -/
@@ -67,19 +94,20 @@ theorem premergeF_op_shape {fuel : Nat} {f : Flags} {k : CompKind} {cs : List (K
     {into : Option Node} {r : Node} {same : Bool} {into' : Option Node} (hk : k = .append ∨ k = .extend)
     (h : premergeF (fuel + 1) (.comp f k cs) path into = .ok (r, same, into')) :
     same = false ∧ ∃ rf rk old added, r = .comp rf rk (old ++ added) ∧ rk.isListFam = true ∧ Contributed cs added ∧
-      ((rf = freshFlags ∧ rk = .list ∧ old = []) ∨
+      ((r = newPlainList f (cs.map (·.2)) ∧ rf = replaceOtherFlags freshFlags f ∧ rk = .list ∧ old = []) ∨
        (∃ root, into = some root ∧ (getNode root path = some (.comp rf rk old) ∨
           ∃ root', removeNode root path = some (.comp rf rk old, root')))) := by
-  have fresh : ∀ into1, (Except.ok (newPlainList (cs.map (·.2)), false, into1) : PM) = .ok (r, same, into') →
+  have fresh : ∀ into1, (Except.ok (newPlainList f (cs.map (·.2)), false, into1) : PM) = .ok (r, same, into') →
       same = false ∧ ∃ rf rk old added, r = .comp rf rk (old ++ added) ∧ rk.isListFam = true ∧ Contributed cs added ∧
-      ((rf = freshFlags ∧ rk = .list ∧ old = []) ∨
+      ((r = newPlainList f (cs.map (·.2)) ∧ rf = replaceOtherFlags freshFlags f ∧ rk = .list ∧ old = []) ∨
        (∃ root, into = some root ∧ (getNode root path = some (.comp rf rk old) ∨
           ∃ root', removeNode root path = some (.comp rf rk old, root')))) := by
     intro into1 h
     simp only [Except.ok.injEq, Prod.mk.injEq] at h
     obtain ⟨rfl, rfl, _⟩ := h
-    exact ⟨rfl, freshFlags, .list, [], (newPlainList (cs.map (·.2))).children, by simp [newPlainList, Node.children],
-      rfl, contributed_fresh, .inl ⟨rfl, rfl, rfl⟩⟩
+    exact ⟨rfl, replaceOtherFlags freshFlags f, .list, [], (newPlainList f (cs.map (·.2))).children,
+      by rw [newPlainList_eq]; simp [Node.children],
+      rfl, contributed_fresh f, .inl ⟨rfl, rfl, rfl, rfl⟩⟩
   rcases hk with rfl | rfl
   · simp only [premergeF] at h
     split at h
